@@ -161,7 +161,9 @@ with IT :=
 | IMap (f : fn1) (i : IT)
 | IMapWith (f : mw) (i : IT)
 | IOrNot (a : G)
-| IRepCfg (a : G) (lo : nat) (hi : option nat).  (* repeated().configure(|cfg, ctx| cfg.exactly(count ctx)) *)
+| IRepCfg (a : G) (lo : nat) (hi : option nat) (ck : nat).
+    (* a.repeated().at_least(lo).at_most(hi).configure(|cfg, ctx| ..) with n = count ctx and
+       ck = 0: cfg.exactly(n); 1: cfg.at_least(n); 2: cfg.at_most(n); otherwise cfg unchanged *)
 
 (* the lexical environment of a parser: the context value (ParserExtra::Context) and the
    enclosing recursive definitions *)
@@ -176,6 +178,10 @@ Definition rpow (r : bool) (bp : nat) : nat := if r then 2 * bp else 2 * bp + 1.
 Definition pfold_infix (k : nat) (l op r : val) (sp : span) : val := VTag k (VList [l; op; r; VSpan (fst sp) (snd sp)]).
 Definition pfold_prefix (k : nat) (op r : val) (sp : span) : val := VTag k (VList [op; r; VSpan (fst sp) (snd sp)]).
 Definition pfold_postfix (k : nat) (l op : val) (sp : span) : val := VTag k (VList [l; op; VSpan (fst sp) (snd sp)]).
+
+(* the bounds in force after configuration: what the closure set overrides the static bound *)
+Definition cfg_lo (ck lo n : nat) : nat := match ck with 0 | 1 => n | _ => lo end.
+Definition cfg_hi (ck : nat) (hi : option nat) (n : nat) : option nat := match ck with 0 | 2 => Some n | _ => hi end.
 
 (* derived forms, as in Rust *)
 Definition Lazy (a : G) : G := ThenIgnore a (RepUnit (IRep Any 0 None)).
